@@ -21,52 +21,73 @@ META = {
 }
 
 
-@rule("C16.word-extent", "in NonBreakChecker::has_non_break_word the Ordering::Equal verdict inspects only the matched word: every slice of "
-                         "the input in that arm is bounded above by entry.end / the boundary")
+@rule("C16.word-extent", "in NonBreakChecker::has_non_break_word every slice of the input text taken while examining a dictionary word is "
+                         "bounded above by that word's end / the boundary (the verdict for a word ending on the boundary concerns the matched "
+                         "word only); a word extending past the boundary vetoes the break")
 def word_extent(db, ctx):
+    from ..db import deref_let, walk_x
     f = db.one("has_non_break_word", "NonBreakChecker")
-    arms = []
+    loops = list(_loops_of(f))
+    if not loops:
+        raise AnchorMissing("has_non_break_word: lookup loop")
+    n_slices = 0
     for n, ps in walk(f.hir):
-        if n.get("k") == "Match" and n.get("src") == "Normal":
-            for a in n["arms"]:
-                pth = (a["pat"].get("e") or {}).get("path") or a["pat"].get("path") or ""
-                if pth.endswith("Ordering::Equal"):
-                    arms.append((n, a))
-    if not arms:
-        raise AnchorMissing("has_non_break_word: Ordering::Equal arm")
-    for m, a in arms:
-        slices = [x for x, _ in walk(a["body"]) if x.get("k") == "Index" and "str" in (x.get("bty") or "")]
-        if not slices:
-            txt = render(a["body"])
-            ok = ("end_byte" in txt or "eos_byte" in txt or ".end" in txt)
-            ctx.ob("equal-arm|verdict-uses-extent", ok, "Equal arm `%s` does not slice the input; it must still consult the word's end: %s" % (txt[:120], ok), fn=f)
-            continue
-        for s in slices:
-            rng = peel(s["i"])
+        if n.get("k") == "Index" and "str" in (n.get("bty") or "") and local_name(n["e"]) == "input":
+            n_slices += 1
+            rng = deref_let(n["i"])
             kind = (rng.get("path") or "").split("::")[-1] if rng.get("k") == "Struct" else render(rng)
             bounded = False
             if rng.get("k") == "Struct" and kind in ("Range", "RangeInclusive", "RangeTo", "RangeToInclusive"):
                 fl = {x["name"]: x["e"] for x in rng["fields"]}
                 if "end" in fl:
                     og = origins(db, f, fl["end"], depth=0)
-                    bounded = any((o[0] == "field" and o[2] == "end") for o in og) or "eos_byte" in render(fl["end"]) or "end_byte" in render(fl["end"])
+                    bounded = any((o[0] == "field" and o[2] == "end") for o in og) or any(
+                        y.get("k") == "Path" and y.get("res") == "local" and "let_init" in y and any(z.get("k") == "Field" and z.get("name") == "bos" for z, _ in walk(y["let_init"]))
+                        for y, _ in walk(fl["end"]))
             ctx.ob("equal-arm|slice-bounded", bounded,
-                   "Equal arm inspects `%s` (%s): %s" % (render(s), kind,
-                                                         "bounded by the matched word's end" if bounded else
-                                                         "NOT bounded above — characters after the matched word are counted, so a single-character "
-                                                         "entry equal to the terminator vetoes the break whenever any text follows"),
-                   fn=f, site=s.get("sp"))
-    # Greater arm vetoes
+                   "has_non_break_word inspects `%s` (%s): %s" % (render(n), kind,
+                                                                  "bounded by the matched word's end" if bounded else
+                                                                  "NOT bounded above — characters after the matched word are counted, so a single-character "
+                                                                  "entry equal to the terminator vetoes the break whenever any text follows"),
+                   fn=f, site=n.get("sp"))
+    if n_slices == 0:
+        txt = render(f.hir, x=True)
+        ctx.ob("equal-arm|verdict-uses-extent", ".end" in txt or "end_byte" in txt, "no slice of the input: the verdict must still consult the word's end", fn=f)
+    # the boundary local: bound to `self.bos + length`
+    eos_lids = {x["lid"] for x, _ in walk(f.hir) if x.get("k") == "Path" and x.get("res") == "local" and "let_init" in x
+                and any(y.get("k") == "Field" and y.get("name") == "bos" for y, _ in walk(x["let_init"]))}
+
+    def is_eos(e):
+        return any(y.get("k") == "Path" and y.get("lid") in eos_lids for y, _ in walk(e))
+
+    def is_end(e):
+        return any(y.get("k") == "Field" and y.get("name") == "end" and (y.get("adt") or "").endswith("LexiconEntry") for y, _ in walk_x(e))
+    # a word extending past the boundary vetoes: `return true` under end > eos (match arm Greater, or a comparison)
     gt = False
-    for m, a in arms:
-        for a2 in m["arms"]:
-            pth = (a2["pat"].get("e") or {}).get("path") or a2["pat"].get("path") or ""
-            if pth.endswith("Ordering::Greater"):
-                b = peel(a2["body"])
-                gt = b.get("k") == "Ret" and peel(b.get("e")).get("v") is True
-    ctx.ob("greater-arm|veto", gt, "a word extending past the boundary vetoes the break (`return true`): %s" % gt, fn=f)
-    cmp_ok = any(c.get("k") == "MethodCall" and c.get("method") == "cmp" and "end" in render(c["recv"]) and "eos_byte" in render(c["args"][0]) for c, _ in walk(f.hir))
-    ctx.ob("compares-end-with-boundary", cmp_ok, "the match compares the entry end with the boundary (end.cmp(&eos_byte)): %s" % cmp_ok, fn=f)
+    for n, ps in walk(f.hir):
+        if n.get("k") == "Ret" and peel(n.get("e", {})).get("v") is True:
+            pcs = path_conditions(n["id"], f.hir) or []
+            for c, pol in pcs:
+                if isinstance(c, tuple) and c[0] == "arm" and ((c[2].get("e") or {}).get("path") or c[2].get("path") or "").endswith("Ordering::Greater"):
+                    gt = True
+                if isinstance(c, dict):
+                    for a, p in atoms(c, pol):
+                        cm = cmp_atom(a)
+                        if cm and p and cm[0] in ("Gt", "Lt"):
+                            big, small = (cm[1], cm[2]) if cm[0] == "Gt" else (cm[2], cm[1])
+                            if is_end(big) and is_eos(small):
+                                gt = True
+    ctx.ob("greater-arm|veto", gt, "a word extending past the boundary vetoes the break (`return true` when its end > the boundary): %s" % gt, fn=f)
+    cmp_ok = any(is_eos(c) and is_end(c) for c, _ in walk(f.hir)
+                 if (c.get("k") == "MethodCall" and c.get("method") == "cmp") or (c.get("k") == "Binary" and c.get("op") in ("Gt", "Lt", "Eq", "Ge", "Le")))
+    ctx.ob("compares-end-with-boundary", cmp_ok, "the entry end is compared with the boundary: %s" % cmp_ok, fn=f)
+
+
+def _loops_of(f):
+    for n, ps in walk(f.hir):
+        fl = for_loop_parts(n) if n.get("k") == "Match" else None
+        if fl:
+            yield n, fl, ps
 
 
 @rule("C16.vetoes", "the boundary returned by get_eos has passed parenthesis_level, ITEMIZE_HEADER, is_continuous_phrase and (with a "
@@ -125,36 +146,76 @@ def vetoes(db, ctx):
 
 
 @rule("C16.cover", "SentenceIter::next yields position..end, sets position=end, slices data by that range, ends at position==data.len(); "
-                   "end = data.len() for a negative get_eos result, position+rv otherwise")
+                   "end = data.len() for a negative get_eos result, position+result otherwise")
 def cover(db, ctx):
+    from ..db import deref_let, walk_x
     fs = [f for f in db.impls_of("Iterator::next") if "SentenceIter" in f.key]
     if len(fs) != 1:
         raise AnchorMissing("<SentenceIter as Iterator>::next")
     f = fs[0]
+    X = lambda e: render(e, x=True)
     stop = False
     for ifn, cond, pol, ek, ps in guarded_exits(f.hir):
         c = cmp_atom(cond)
-        if c and c[0] == "Eq" and "position" in render(cond) and "data.len()" in render(cond) and pol and ek in ("none", "ret"):
+        if c and c[0] == "Eq" and "self.position" in X(cond) and "data.len()" in X(cond) and pol and ek in ("none", "ret"):
             stop = True
     ctx.ob("stops-at-end", stop, "returns None exactly when self.position == self.data.len(): %s" % stop, fn=f)
-    lets = {n["pat"].get("name"): n["init"] for n, _ in walk(f.hir) if n.get("k") == "Let" and "init" in n and n["pat"].get("k") == "Bind"}
-    rng = render(lets.get("range", {}))
-    ok_rng = "start: self.position" in rng and "end: end" in rng
-    ctx.ob("range=position..end", ok_rng, "yielded range is `%s`" % rng, fn=f)
-    end = lets.get("end")
+    # the yielded pair
+    some = None
+    for n, _ in walk(f.hir):
+        e = peel(n)
+        if e.get("k") == "Call" and path_ends(e.get("callee"), ("Some", "Option::Some")) and e["args"] and peel(e["args"][0]).get("k") == "Tup":
+            some = peel(e["args"][0])["elems"]
+    if not some or len(some) != 2:
+        raise AnchorMissing("SentenceIter::next: Some((range, text))")
+    rng = deref_let(some[0])
+    rtxt = X(some[0])
+    ok_rng = rng.get("k") == "Struct" and "start: self.position" in rtxt
+    ctx.ob("range=position..end", ok_rng, "yielded range is `%s` (must start at self.position)" % rtxt[:120], fn=f)
+    # the end value: negative detector result -> data.len(), otherwise position + result; possibly computed by a private helper
+    end_expr = None
+    if rng.get("k") == "Struct":
+        end_expr = {x["name"]: x["e"] for x in rng["fields"]}.get("end")
+    branches = None
+    cand = []
+    if end_expr is not None:
+        e = deref_let(end_expr)
+        if e.get("k") == "If":
+            cand.append((e, None))
+        elif is_call(e) and callee(e) in db.fns and db.fns[callee(e)].hir:
+            g = db.fns[callee(e)]
+            body_e = peel(g.hir.get("expr") or g.hir)
+            if body_e.get("k") == "If":
+                cand.append((body_e, (g, e)))
     ok_end = False
-    if end and peel(end).get("k") == "If":
-        e = peel(end)
-        c = cmp_atom(e["cond"])
-        ok_end = bool(c) and c[0] == "Lt" and lit_int(c[2]) == 0 and "data.len()" in render(e["then"]) and "self.position +" in render(e.get("else", {}))
-    ctx.ob("end", ok_end, "end = `%s` (must be data.len() when rv<0, position+rv otherwise)" % render(end)[:100], fn=f)
-    adv = any(n.get("k") == "Assign" and "position" in render(n["l"]) and local_name(n["r"]) == "end" for n, _ in walk(f.hir))
-    ctx.ob("advances", adv, "self.position = end: %s" % adv, fn=f)
-    sl = render(lets.get("real_slice", {}))
-    ctx.ob("slice-by-range", "self.data[" in sl and "range" in sl, "yielded text is `%s`" % sl, fn=f)
-    src = render(lets.get("slice", {}))
-    ctx.ob("get_eos-on-rest", "self.data[" in src and "self.position" in src and any(is_call(c) and path_ends(callee(c), "get_eos") for c, _ in walk(f.hir)),
-           "get_eos is applied to `%s`" % src, fn=f)
+    shown = None
+    for iff, helper in cand:
+        c = cmp_atom(iff["cond"])
+        if not c or lit_int(c[2]) != 0:
+            continue
+        neg_branch, pos_branch = (iff["then"], iff.get("else")) if c[0] == "Lt" else (iff.get("else"), iff["then"]) if c[0] == "Ge" else (None, None)
+        if neg_branch is None or pos_branch is None:
+            continue
+        nb, pb = X(neg_branch), X(pos_branch)
+        # the tested value is the detector's result
+        tested = c[1]
+        if helper:
+            g, call = helper
+            plist = [p_.get("name") for p_ in (g.info.get("params") or [])]
+            nm = local_name(tested)
+            tested_src = X(call_args(call)[plist.index(nm)]) if nm in plist else ""
+        else:
+            tested_src = X(tested)
+        ok_end = "data.len()" in nb and "position" not in nb and "self.position +" in pb and "get_eos" in tested_src
+        shown = "negative -> `%s`, otherwise `%s`, tested value from `%s`" % (nb[:40], pb[:50], tested_src[:60])
+    ctx.ob("end", ok_end, "end: %s (must be data.len() when the detector result is negative, position+result otherwise)" % shown, fn=f)
+    adv = any(n.get("k") == "Assign" and "position" in render(n["l"]) and X(n["r"]) == X(end_expr) for n, _ in walk(f.hir)) if end_expr is not None else False
+    ctx.ob("advances", adv, "self.position is advanced to the range end: %s" % adv, fn=f)
+    sl = X(some[1])
+    ctx.ob("slice-by-range", "self.data[" in sl and ("start: self.position" in sl), "yielded text is `%s`" % sl[:120], fn=f)
+    ge = [c for c, _ in walk(f.hir) if is_call(c) and path_ends(callee(c), "get_eos")]
+    src = X(call_args(ge[0])[1]) if ge else ""
+    ctx.ob("get_eos-on-rest", "self.data[" in src and "RangeFrom{start: self.position" in src.replace("ops::", ""), "get_eos is applied to `%s`" % src[:100], fn=f)
 
 
 @rule("C16.bracket-level", "parenthesis_level never goes below zero: the decrement for a closing bracket is guarded by level > 0 (or saturating), so a "
